@@ -600,9 +600,9 @@ def main(ctx, args):
             if len(g) < 3 or g[2] != got:
                 enc_bad.append({"case": c["id"], "src": c["src"], "function": f["label"], "mir_control_skeleton": f["blocks"],
                                 "model_encoding": g[2] if len(g) > 2 else g, "emitted_encoding": got})
-            elif g[1] != "1":
-                enc_bad.append({"case": c["id"], "src": c["src"], "function": f["label"], "mir_control_skeleton": f["blocks"],
-                                "note": "arms of this MIR function are not properly nested: premise of C18_fallthrough_arm_is_innermost fails"})
+            elif g[1] != "11":
+                enc_bad.append({"case": c["id"], "src": c["src"], "function": f["label"], "mir_control_skeleton": f["blocks"], "nested_forward": g[1],
+                                "note": "this MIR function is not properly nested / has a back edge: premise of C18_fallthrough_arm_is_innermost / C18_dispatch_loop_terminates fails"})
     # decide
     failures, refused, skipped, nontriv, samples = [], [], collections.Counter(), set(), []
     for c in cases:
@@ -662,6 +662,17 @@ def main(ctx, args):
             except Exception as e:
                 rep["shrink_error"] = str(e)
         ctx.violation(f"{why} — {len(failures)} programs; smallest:\n{rep['src']}", rep)
+    if args.replay and refused and str(json.load(open(args.replay)).get("why", "")).startswith("refused"):
+        c, m = refused[0]
+        ctx.violation(f"emit_rust still refuses the replayed core-language program ({m})", {"src": c["src"], "inputs": c["inputs"], "times": c["times"], "why": "refused: " + m})
+    gen_total = sum(1 for c in cases if "prog" in c and res[c["id"]]["vm"].startswith("ok"))
+    gen_refused = [(c, m) for c, m in refused if "prog" in c]
+    if gen_total and len(gen_refused) * 10 > gen_total and not failures:
+        # the statement allows any refusal; a transpiler that refuses the plain core language would make this check vacuous
+        gen_refused.sort(key=lambda x: len(x[0]["src"]))
+        c, m = gen_refused[0]
+        ctx.violation(f"emit_rust refuses {len(gen_refused)} of {gen_total} generated core-language programs that the VM runs ({m}); smallest:\n{c['src']}",
+                      {"src": c["src"], "sx": c.get("sx"), "inputs": c["inputs"], "times": c["times"], "why": "refused: " + m, "refused": len(gen_refused), "of": gen_total})
     if enc_bad and not failures:
         enc_bad.sort(key=lambda d: len(d["src"]))
         what = enc_bad[0].get("note") or "dispatch loop of the generated text differs from Model/RustGen.lean `encode` of the MIR control skeleton"
